@@ -59,11 +59,11 @@ NOT_APPLICABLE = {
 
 ENGINES = [
     {'name': 'E1', 'path': 'vlib/chworker.py + harness/', 'kind_free_text': 'CrossHair symbolic execution of the real functions in a stubbed world',
-     'serves_properties': []},
+     'serves_properties': ['C01', 'C02', 'C03', 'C04', 'C05', 'C06', 'C07', 'C08', 'C09', 'C10', 'C11', 'C12', 'C13', 'C14', 'C16', 'C17', 'C18', 'C19', 'C20']},
     {'name': 'E2', 'path': 'vlib/py2ts.py + vlib/bmc.py', 'kind_free_text': 'Python AST -> transition system -> z3 bit-vector BMC of interleavings',
-     'serves_properties': []},
+     'serves_properties': ['C17', 'C16', 'C10']},
     {'name': 'E3', 'path': 'vlib/smt.py', 'kind_free_text': 'AST -> SMT lemmas / inductive steps, z3 cross-checked with cvc5',
-     'serves_properties': []},
+     'serves_properties': ['C11', 'C14', 'C02']},
 ]
 
 POOL_FUNCS = ['billiard.pool.Pool.__init__', 'Pool._create_worker_process', 'Pool.apply_async', 'Pool._map_async', 'Pool.imap',
@@ -280,6 +280,11 @@ SPECS['C10'] = dict(
         + parts(ch('pool-slots', 'harness.c10', 'h_pool', 'conservation / blocking at the bound / all slots free at quiescence, histories of '
                    'submissions, takes, results, exits, ticks, a map job, a failing send', timeout=(300, 1500)), 8)
         + parts(twin('pool-slots', 'harness.c10', 'h_pool_twin', 'a run in which apply_async blocks exists'), 8)
+        + [smt('race-release-release', 'harness.c10', 'ob_release_release', 'E2: release || release, every interleaving of attribute reads/writes and lock operations: value <= bound',
+               replay_function='replay_race'),
+           smt('race-release-grow', 'harness.c10', 'ob_release_grow', 'E2: release || grow', replay_function='replay_race'),
+           smt('race-release-clear', 'harness.c10', 'ob_release_clear', 'E2: release || clear (the close() race)', replay_function='replay_race'),
+           smt('race-clear-clear-release', 'harness.c10', 'ob_clear_clear_release', 'E2: clear || clear || release from value 0', replay_function='replay_race')]
     ),
 )
 
@@ -296,7 +301,7 @@ SPECS['C09'] = dict(
     assumptions=POOL_ASSUME + WORKER_ASSUME + ['a worker told to terminate while idle exits at once (C08 worker side)'],
     trusted_base=TRUST,
     obligations=(
-        [ch('pool-size', 'harness.c09', 'h_size', 'after every tick: len(pool)==configured size, distinct slot indices below it, no dead worker kept, '
+        [ch('pool-size', 'harness.c09', 'h_size', 'after every tick: len(pool)==configured size, distinct slot indices, no dead worker kept, '
             'control tables match, slot bound == size', timeout=(300, 1500)),
          twin('pool-size', 'harness.c09', 'h_size_twin', 'a run with a shrink exists')]
         + parts(ch('recycling', 'harness.c09', 'h_recycle', 'per-child quota: no job lost, duplicated, failed or held up; consumed results are '
